@@ -1,14 +1,14 @@
-import RJson.Proofs.ParseSlow
+import RJson.Proofs.ParseSlowAny
 import RJson.Props.C04Fast
 /-!
 # C04 — the multiprecision slow path, and the conversion as a whole
 
-For **every** input whose head is a JSON number literal of at most 800 bytes (any exponent, any bytes after it) and the
+For **every** input whose head is a JSON number literal (any number of digits, any exponent, any bytes after it) and the
 hand model of `internal/fp` over the regenerated tables (`powtab`, `leftcheats`, `pow10tab`, `float64pow10`):
 
 * `parse_slow_correct`: when the fast paths decline, `decimal.set` accepts the literal (never the slow-path syntax
   error) and, when the multiprecision run is exact (`Decimal.exactRun`: the sticky truncation flag of the 800-digit
-  decimal never comes on), `floatBits` does not panic, and error flag and bits are those of `Spec.roundDec` of the
+  decimal never comes on — neither in `set`, which may drop zeros only, nor in a shift), `floatBits` does not panic, and error flag and bits are those of `Spec.roundDec` of the
   literal's exact value `Spec.numberValue`: overflow is reported exactly when the correctly rounded value is infinite;
 * `parse_correct`: the same for whichever path answers (exact, Eisel-Lemire, Eisel-Lemire double check, slow).
 
@@ -19,7 +19,7 @@ Behind it: `Dec.set_spec` (the decimal built from the text), `Dec.leftShift_spec
 assembly), `Dec.floatBits_spec`, `ParseSlow.roundRat_clip` (the exponent clipped beyond `10000 + len` rounds like the true one).
 
 Not proved: runs in which the truncation flag comes on (more than 800 significant digits needed at some point: the
-literal has more than 800 digits, or a right shift produces more than 800), where the code rounds a truncated
+literal has more than 800 significant digits, or a right shift produces more than 800), where the code rounds a truncated
 decimal with its `trunc` tie-break; those stay with the correspondence run against `Spec.readFloat`.
 -/
 namespace RJson.C04
@@ -34,7 +34,6 @@ theorem lit_toList (data : Bytes) (n : Nat) : (data.extract 0 n).toList = data.t
 
 /-- **the slow path** -/
 theorem parse_slow_correct (data : Bytes) (rest : List UInt8) (hscan : scanNumber data.toList = some rest)
-    (hlen : data.size - rest.length ≤ 800)
     (hpath : (parse data).path ≠ .exact ∧ (parse data).path ≠ .eisel ∧ (parse data).path ≠ .eiselTrunc) :
     ∃ a, Decimal.set (data.extract 0 (data.size - rest.length)) = some a ∧
       (a.exactRun = true →
@@ -53,12 +52,7 @@ theorem parse_slow_correct (data : Bytes) (rest : List UInt8) (hscan : scanNumbe
   have hsl := ParseSlow.shape_lit hs
   have hsz : data.toList.length = data.size := by simp
   rw [hsz, ← lit_toList] at hsl
-  have hdig : ip.length + fp.length ≤ 800 := by
-    have := congrArg List.length hs.eq
-    have hfl : fp.length ≤ (fracL fp).length := by cases fp <;> simp [fracL]
-    simp only [Array.length_toList, List.length_append] at this
-    omega
-  obtain ⟨a, hset, hfb⟩ := ParseSlow.slow_correct _ neg ip fp ec sg eds hsl hdig
+  obtain ⟨a, hset, hfb⟩ := ParseSlow.slow_correct_any _ neg ip fp ec sg eds hsl
   refine ⟨a, hset, fun hex => ?_⟩
   have hfb := hfb hex
   have hnv : rounded (data.toList.take (data.toList.length - rest.length)) =
@@ -94,10 +88,9 @@ theorem parse_slow_correct (data : Bytes) (rest : List UInt8) (hscan : scanNumbe
       | true => simp
       | false => simp
 
-/-- **`ParseJSONFloatPrefix` as a whole** on a literal of at most 800 bytes: whichever path answers (the slow one
+/-- **`ParseJSONFloatPrefix` as a whole**: whichever path answers (the slow one
     under the exactness of its run), error flag and bits are those of the correctly rounded exact value -/
 theorem parse_correct (data : Bytes) (rest : List UInt8) (hscan : scanNumber data.toList = some rest)
-    (hlen : data.size - rest.length ≤ 800)
     (hex : ∀ a, Decimal.set (data.extract 0 (data.size - rest.length)) = some a → a.exactRun = true) :
     (parse data).n = data.size - rest.length ∧
     (parse data).err = (rounded (data.toList.take (data.toList.length - rest.length))).2 ∧
@@ -110,13 +103,12 @@ theorem parse_correct (data : Bytes) (rest : List UInt8) (hscan : scanNumber dat
     exact ⟨trivial, fun _ => trivial⟩
   · have hp : (parse data).path ≠ .exact ∧ (parse data).path ≠ .eisel ∧ (parse data).path ≠ .eiselTrunc :=
       ⟨fun h => hfast (.inl h), fun h => hfast (.inr (.inl h)), fun h => hfast (.inr (.inr h))⟩
-    obtain ⟨a, hset, hres⟩ := parse_slow_correct data rest hscan hlen hp
+    obtain ⟨a, hset, hres⟩ := parse_slow_correct data rest hscan hp
     exact (hres (hex a hset)).2
 
-/-- **`ReadFloat64`** (leading whitespace, then a literal of at most 800 bytes): value, end offset and error are what
+/-- **`ReadFloat64`** (leading whitespace, then a number literal): value, end offset and error are what
     `Spec.readFloat` specifies — an error exactly when the correctly rounded value overflows -/
 theorem readFloat64_correct (data : Bytes) (rest : List UInt8) (hscan : scanNumber (skipWs data.toList) = some rest)
-    (hlen : (skipWs data.toList).length - rest.length ≤ 800)
     (hex : ∀ a, Decimal.set ((data.extract (countWhitespace data) data.size).extract 0 ((skipWs data.toList).length - rest.length)) = some a →
       a.exactRun = true) :
     (Model.readFloat64 data).p = ((data.size - rest.length : ℕ) : ℤ) ∧
@@ -134,7 +126,7 @@ theorem readFloat64_correct (data : Bytes) (rest : List UInt8) (hscan : scanNumb
     have := congrArg List.length hsub
     simpa using this
   rw [← hsub] at hscan
-  obtain ⟨hn, he, hv⟩ := parse_correct _ rest hscan (by rw [hsz]; exact hlen) (by rw [hsz]; exact hex)
+  obtain ⟨hn, he, hv⟩ := parse_correct _ rest hscan (by rw [hsz]; exact hex)
   obtain ⟨_, _, _, hpos⟩ := parse_accepts_number _ rest hscan
   rw [hsz] at hn hpos
   rw [hsub] at he hv hscan
